@@ -45,15 +45,21 @@ package syncx
 //@   requires chanCap(l.pool) >= 1 && 0 <= chanLen(l.pool) && chanLen(l.pool) <= chanCap(l.pool)
 //@   ensures  result == (old(chanLen(l.pool)) < chanCap(l.pool))
 //@   ensures  chanLen(l.pool) == old(chanLen(l.pool)) + ite(result, 1, 0) && chanLen(l.pool) <= chanCap(l.pool)
+//@   modifies chanLen(l.pool)
+
 //@ func (l Limit) Return
 //@   property C05
 //@   requires chanCap(l.pool) >= 1 && 0 <= chanLen(l.pool) && chanLen(l.pool) <= chanCap(l.pool)
 //@   ensures  iff(result == nil, old(chanLen(l.pool)) > 0) && implies(result != nil, result == ErrLimitReturn)
 //@   ensures  chanLen(l.pool) == old(chanLen(l.pool)) - ite(result == nil, 1, 0) && chanLen(l.pool) >= 0
+//@   modifies chanLen(l.pool)
+
 //@ func (l Limit) Borrow
 //@   property C05
 //@   requires chanCap(l.pool) >= 1 && 0 <= chanLen(l.pool) && chanLen(l.pool) <= chanCap(l.pool)
 //@   ensures  chanLen(l.pool) == old(chanLen(l.pool)) + 1 && chanLen(l.pool) <= chanCap(l.pool)
+//@   modifies chanLen(l.pool)
+
 //@ func NewLimit
 //@   property C05
 //@   requires n >= 1
@@ -64,11 +70,15 @@ package syncx
 //@   requires chanCap(l.limit.pool) >= 1 && 0 <= chanLen(l.limit.pool) && chanLen(l.limit.pool) <= chanCap(l.limit.pool)
 //@   ensures  result == (old(chanLen(l.limit.pool)) < chanCap(l.limit.pool))
 //@   ensures  chanLen(l.limit.pool) == old(chanLen(l.limit.pool)) + ite(result, 1, 0)
+//@   modifies chanLen(l.limit.pool)
+
 //@ func (l TimeoutLimit) Return
 //@   property C05
 //@   requires chanCap(l.limit.pool) >= 1 && 0 <= chanLen(l.limit.pool) && chanLen(l.limit.pool) <= chanCap(l.limit.pool)
 //@   ensures  iff(result == nil, old(chanLen(l.limit.pool)) > 0) && implies(result != nil, result == ErrLimitReturn)
 //@   ensures  chanLen(l.limit.pool) == old(chanLen(l.limit.pool)) - ite(result == nil, 1, 0)
+//@   modifies chanLen(l.limit.pool)
+
 //@ func (cond *Cond) Signal
 //@   trusted
 //@   modifies nothing
